@@ -59,7 +59,7 @@ HARNESSES += [_db('c11_db_remap', 1), _db('c11_db_remap_100', 100)]
 
 PROPERTY_INFO = {'C11': {'level': 'model_checking',
          'explanation': 'bounded symbolic execution (CBMC) of the real index-rewriting code lowered from /repo',
-         'outside': 'the generated lookup tables of -fptrs / -unique-names (_in_fptrs, _in_unique_names) against the database (seed c11r3b is an open miss); agreement of the generated C signatures with the database: decided by the C01 run (engine/c01check.py declares every wrapper '
+         'outside': 'the generated lookup tables of -fptrs / -unique-names (_in_fptrs, _in_unique_names) against the database: decided by the C01 run (h_tables harness of engine/c01check.py, symbolic wrapper number; catches seed c11r3b); agreement of the generated C signatures with the database: decided by the C01 run (engine/c01check.py declares every wrapper '
                     'from the signature recorded in the database and calls it through that declaration, so a disagreement is ill-typed or '
                     'fails there); '
                     'InterrogateBuilder::get_type removal of invalid types (needs parser state); unique-name distinctness (C03); '
